@@ -428,3 +428,42 @@ UNITS["v_crud_vec"] = dict(
              safety_id="C18.remove_value.safety"),
     ],
 )
+
+# ------------------------------------------------------------------------------------------------
+UNITS["v_format_radix"] = dict(
+    prop=["C25", "C04", "C05"], tier="q", prelude=["format_int.rs"],
+    extra='''
+proof fn lemma_round_trip(x: i64, radix: int, out: Seq<char>)
+    requires out.len() >= 1, (x < 0) == (out[0] == '-'),
+             ({ let d = if x < 0 { out.drop_first() } else { out }; d.len() >= 1 && all_digits(d, radix) && val(d, radix) == abs_i64(x) }),
+    ensures parsed(out, radix) == x as int,
+{ }
+''',
+    fns=[dict(
+        id="format_radix", file="src/stdlib/format_int.rs", impl=None, name="format_radix",
+        orig_sig="fn format_radix(x: i64, radix: u32) -> String",
+        sig="pub fn format_radix(x: i64, radix: u32) -> (r: VecDeque<char>)",
+        requires=["2 <= radix <= 36"],
+        rewrites=[
+            dict(**{"from": "result.into_iter().collect()", "to": "result", "count": 1, "why": "the String is the chars in order (collect); contract stated on the char sequence"}),
+            dict(**{"from": r"\n(\s*)loop \{", "to": r"\n\1let ghost x0 = x as int;\n\1loop {", "regex": True, "count": 1, "why": "ghost: magnitude before the loop"}),
+            dict(**{"from": r"\n(\s*)if x == 0 \{", "regex": True, "count": 1,
+                    "to": r"\n\1proof { lemma_step(xo, radix as int, pow(radix as int, ro.len()), val(ro, radix as int), m as int, x as int); lemma_push_front(ro, result@[0], radix as int); assert(result@ =~= seq![result@[0]] + ro); }\n\1if x == 0 {",
+                    "why": "proof hint (nonlinear arithmetic lemma) before the loop exit test"}),
+            dict(**{"from": r"\n(\s*)if negative \{\s*result\.push_front\('-'\);", "regex": True, "count": 1,
+                    "to": r"\n\1let ghost digits = result@;\n\1proof { assert(x as int * pow(radix as int, digits.len()) == 0) by(nonlinear_arith) requires x == 0; }\n\1if negative {\n\1    result.push_front('-');\n\1    proof { assert(result@.drop_first() =~= digits); }",
+                    "why": "proof hints after the loop"}),
+        ],
+        loops={"_count": 1, 0: dict(
+            spec="invariant 2 <= radix <= 36, x0 == x * pow(radix as int, result@.len()) + val(result@, radix as int), all_digits(result@, radix as int),\n ensures x == 0, result@.len() >= 1,\n decreases x,",
+            start="let ghost xo = x as int; let ghost ro = result@;")},
+        ensures=[
+            ("C25.format_radix.sign", "the output starts with '-' exactly for negative inputs", "r@.len() >= 1 && ((x < 0) == (r@[0] == '-'))"),
+            ("C25.format_radix.digits", "every other character is a valid digit of the radix and there is at least one",
+             "({ let d = if x < 0 { r@.drop_first() } else { r@ }; d.len() >= 1 && all_digits(d, radix as int) })"),
+            ("C25.format_radix.value", "the digits' positional value is |x| for every i64 (so parsing the text in the same base restores x)",
+             "({ let d = if x < 0 { r@.drop_first() } else { r@ }; val(d, radix as int) == abs_i64(x) })"),
+        ],
+        safety_id="C25.format_radix.safety", safety_text="no arithmetic overflow (incl. x == i64::MIN), from_digit never None, the digit loop terminates (decreases x)",
+    )],
+)
